@@ -273,7 +273,9 @@ def plan_C20(seed, run, engine, tier="quick", entry=None):
     ops = [dict(op="solve", start=st, w0=w0, knobs=k, faults={}, storage=prob["storage"])]
     if rng.random() < 0.3:
         # a start vector of the wrong length must be refused, not read past its end
-        bad = np.zeros(pp + int(choice(rng, [0, 2])) + (0 if fi else 1) * int(choice(rng, [0, 1]))).tolist()
+        rows = pp + int(choice(rng, [0, 2])) + (0 if fi else 1) * int(choice(rng, [0, 1]))
+        # (a coefficient array of the right rank: one column per task for the multitask solver)
+        bad = (np.zeros((rows, prob["T"])) if prob.get("T") else np.zeros(rows)).tolist()
         ops.append(dict(op="solve", start="point", w0=bad, knobs=dict(k), faults={}, storage=prob["storage"],
                         raw_w0=True))
     plan = P._mk("C20", seed, run, engine, prob, ops, rng)
